@@ -62,6 +62,8 @@ def cases_import(tier):
     out.append(dict(K=2, ap='OBNA', ft=1, nf=3, nw=1, pw=1, stop=1, obj='finite', asph=(2,), enc='utf-16', glass='model', parax=False))
     out.append(dict(K=3, ap='ENPD', ft=0, nf=1, nw=3, pw=3, stop=2, obj='inf', asph=(1,), enc='utf-8', glass='model2', parax=False))
     out.append(dict(K=2, ap='ENPD', ft=0, nf=2, nw=2, pw=1, stop=1, obj='inf', asph=(), enc='utf-8', glass='catalog', parax=False))
+    # a two-dimensional field set: three field points, two of them with the SAME y and different x
+    out.append(dict(K=1, ap='ENPD', ft=0, nf=3, nw=1, pw=1, stop=1, obj='inf', asph=(), enc='utf-8', glass='model', parax=False, xf=True))
     if tier == 'thorough':
         out.append(dict(K=4, ap='ENPD', ft=0, nf=3, nw=3, pw=2, stop=3, obj='finite', asph=(2, 4), enc='utf-8', glass='model2', parax=False))
         out.append(dict(K=6, ap='FNUM', ft=0, nf=2, nw=2, pw=2, stop=4, obj='inf', asph=(), enc='utf-16', glass='model2', parax=False))
@@ -78,7 +80,7 @@ def cases_import(tier):
          doc='load_zemax_file yields surface count, radii (1/CURV or infinity), vertex positions = running sums of DISZ, conics, '
              'PARM n -> coefficient n-1, media, stop, aperture type/value, field type and de-duplicated sorted values, wavelengths and '
              'primary exactly as written; hence the paraxial focal length equals the y-nu trace of the written numbers')
-def h1_import(ctx, K, ap, ft, nf, nw, pw, stop, obj, asph, enc, glass, parax):
+def h1_import(ctx, K, ap, ft, nf, nw, pw, stop, obj, asph, enc, glass, parax, xf=False):
     from optiland.fileio import load_zemax_file
     from optiland.materials import AbbeMaterial, Material
     F = File(ctx)
@@ -92,11 +94,21 @@ def h1_import(ctx, K, ap, ft, nf, nw, pw, stop, obj, asph, enc, glass, parax):
     F.add('GCAT SCHOTT')
     fys = []
     toks = []
+    fxs, xtoks = [], []
     for i in range(nf):
-        v, t = F.num(f'fy{i}', lo=0.0, hi=30.0)
+        if xf and i == 1:
+            v, t = fys[0], toks[0]              # the second field point repeats the y of the first one
+        else:
+            v, t = F.num(f'fy{i}', lo=0.0, hi=30.0)
         fys.append(v)
         toks.append(t)
-    F.add('XFLN ' + ' '.join(['0'] * nf + ['0'] * (12 - nf)))
+        if xf:
+            vx_, tx_ = F.num(f'fx{i}', lo=0.0, hi=30.0)
+            fxs.append(vx_)
+            xtoks.append(tx_)
+    if xf:
+        ctx.assume(ctx.Not(fxs[0] == fxs[1]))
+    F.add('XFLN ' + ' '.join((xtoks if xf else ['0'] * nf) + ['0'] * (12 - nf)))
     F.add('YFLN ' + ' '.join(toks + ['0'] * (12 - nf)))
     ws = []
     for i in range(nw):
@@ -222,10 +234,22 @@ def h1_import(ctx, K, ap, ft, nf, nw, pw, stop, obj, asph, enc, glass, parax):
             uniq[j], uniq[j - 1] = uniq[j - 1], uniq[j]
             j -= 1
     got = ctx.vals(o.fields.y_fields)
-    ctx.oblige('field_count', len(got) == len(uniq))
-    for i in range(min(len(got), len(uniq))):
-        ctx.oblige(f'field{i}', ctx.eq(got[i], uniq[i]))
-    ctx.oblige('x_fields_zero', all(bool(v == 0) for v in ctx.vals(o.fields.x_fields)))
+    if xf:
+        # distinct (x, y) pairs as written, in non-decreasing y
+        pairs = []
+        for px_, py_ in zip(fxs, fys):
+            if not any(bool(ctx.And(px_ == qx, py_ == qy)) for qx, qy in pairs):
+                pairs.append((px_, py_))
+        gx = ctx.vals(o.fields.x_fields)
+        ctx.oblige('field_count', len(got) == len(pairs) and len(gx) == len(got))
+        for i, (px_, py_) in enumerate(pairs):
+            ctx.oblige(f'field_point_{i}_imported', ctx.Or(*[ctx.And(ctx.eq(a, px_), ctx.eq(b, py_)) for a, b in zip(gx, got)]))
+        ctx.oblige('sorted_by_y', ctx.And(*[ctx.le(got[i], got[i + 1]) for i in range(len(got) - 1)]) if len(got) > 1 else True)
+    else:
+        ctx.oblige('field_count', len(got) == len(uniq))
+        for i in range(min(len(got), len(uniq))):
+            ctx.oblige(f'field{i}', ctx.eq(got[i], uniq[i]))
+        ctx.oblige('x_fields_zero', all(bool(v == 0) for v in ctx.vals(o.fields.x_fields)))
     wl = o.wavelengths.get_wavelengths()
     ctx.oblige('wavelength_count', len(wl) == nw)
     for i in range(min(len(wl), nw)):
